@@ -168,6 +168,7 @@ func batch(p *props.Property, runs int, seed uint64, out string) int {
 		flag.Set("rapid.shrinktime", os.Getenv("VERIF_SHRINKTIME"))
 	}
 	st := props.NewStats()
+	st.KeepSeq = os.Getenv("VERIF_KEEPSEQ") != ""
 	t := &tb{name: p.ID}
 	start := time.Now()
 	var (
@@ -267,6 +268,13 @@ func batch(p *props.Property, runs int, seed uint64, out string) int {
 	writeJSON(filepath.Join(out, "stats.json"), sf)
 	writeHashes(filepath.Join(out, "hashes.bin"), st.Hashes)
 	writeHashes(filepath.Join(out, "hashes-nt.bin"), st.NTHashes)
+	if st.KeepSeq {
+		buf := make([]byte, 8*len(st.Seq))
+		for i, h := range st.Seq {
+			binary.LittleEndian.PutUint64(buf[8*i:], h)
+		}
+		os.WriteFile(filepath.Join(out, "seq.bin"), buf, 0o644)
+	}
 	return code
 }
 
